@@ -592,7 +592,7 @@ func judge(cs *fw.Case, pb *problem, cfg *caseCfg) bool {
 	cs.Cover("judged:" + cell)
 	cs.Cover(fmt.Sprintf("judged:%s:%s:order%d", cfg.mon, e.name, cfg.p.order))
 	cs.Cover("activation:" + cfg.p.mode)
-	if pb.iterative {
+	if pb.iterative || cfg.mon == "c" {
 		for i := range fresh {
 			fresh[i] = persistent(cs, pb, cfg, fresh[i])
 		}
@@ -636,17 +636,24 @@ func judge(cs *fw.Case, pb *problem, cfg *caseCfg) bool {
 	return true
 }
 
-// persistent re-examines a derivative failure of an iterative routine at four
-// inputs that differ from the case's by a relative perturbation of 1e-9 (zero
-// pattern and symmetry kept).  A wrong, missing or stale derivative fails
-// there as well; a failure that does not reproduce is a numerical instability
-// of the derivative computation (kind "...:erratic").
+// persistent re-examines a derivative failure at four inputs that differ from
+// the case's by a relative perturbation (zero pattern and symmetry kept): 1e-9
+// for the iterative routines, 1e-3 for the direct routines of monitor (c).  A
+// wrong, missing or stale derivative rule fails there as well; a failure that
+// does not reproduce is a numerical instability of the derivative computation
+// at this particular input (iterative: a sub-diagonal that is negligible but
+// not deflated; direct: a Householder reflector of a vector that is almost a
+// multiple of e1, beta -> 0, nu -> infinity) and gets the kind "...:unstable".
 func persistent(cs *fw.Case, pb *problem, cfg *caseCfg, f finding) finding {
 	if !(strings.HasPrefix(f.kind, "d1") || strings.HasPrefix(f.kind, "d2")) {
 		return f
 	}
 	ord := f.kind[:2]
 	fe := floatOf(cfg.e)
+	rel := 1e-9
+	if !pb.iterative {
+		rel = 1e-3
+	}
 	repro, tried := 0, 0
 	pr := prng.For(cs.C.Seed, cs.ID+"/persist", cs.Index)
 	for t := 0; t < 4; t++ {
@@ -662,7 +669,7 @@ func persistent(cs *fw.Case, pb *problem, cfg *caseCfg, f finding) finding {
 					if in.sym && j > i {
 						continue
 					}
-					c.v[i*n+j] *= 1 + 1e-9*pr.Uniform(-1, 1)
+					c.v[i*n+j] *= 1 + rel*pr.Uniform(-1, 1)
 					if in.sym {
 						c.v[j*n+i] = c.v[i*n+j]
 					}
@@ -693,9 +700,13 @@ func persistent(cs *fw.Case, pb *problem, cfg *caseCfg, f finding) finding {
 			}
 		}
 	}
-	f.detail += fmt.Sprintf(" -- reproduced at %d of %d inputs within a relative distance of 1e-9", repro, tried)
+	f.detail += fmt.Sprintf(" -- reproduced at %d of %d inputs within a relative distance of %g", repro, tried, rel)
 	erratic := tried > 0 && repro < tried
 	switch {
+	case !pb.iterative:
+		if erratic {
+			f.kind = ord + ":unstable"
+		}
 	case ord == "d2":
 		// second derivatives through the QR / Golub-Kahan iterations lose up
 		// to all digits by cancellation (see notes/c06.md): one kind
